@@ -102,12 +102,21 @@ func (it *Interp) syncOp(name string, args []Value) Value {
 		return nil
 	case strings.HasSuffix(name, ").Lock"), strings.HasSuffix(name, ").RLock"):
 		it.rm.locksHeld++
+		m, _ := args[0].(*Value)
+		it.rm.held = append(it.rm.held, m)
 		return nil
 	case strings.HasSuffix(name, ").Unlock"), strings.HasSuffix(name, ").RUnlock"):
 		if it.rm.locksHeld == 0 {
 			panic(targetPanic{mkStringIface("fatal error: sync: unlock of unlocked mutex")})
 		}
 		it.rm.locksHeld--
+		m, _ := args[0].(*Value)
+		for i := len(it.rm.held) - 1; i >= 0; i-- {
+			if it.rm.held[i] == m {
+				it.rm.held = append(it.rm.held[:i:i], it.rm.held[i+1:]...)
+				break
+			}
+		}
 		return nil
 	case name == "(*sync.Once).Do":
 		p := args[0].(*Value)
@@ -152,6 +161,10 @@ func (it *Interp) syncOp(name string, args []Value) Value {
 				it.parYield()
 			}
 		}
+		if it.rm.oncePassed == nil {
+			it.rm.oncePassed = map[oncePass]bool{}
+		}
+		it.rm.oncePassed[oncePass{p, it.threadID()}] = true
 		return nil
 	}
 	if strings.HasPrefix(name, "sync/atomic.") {
